@@ -10,10 +10,12 @@ operations answered by contract and the scope inside `accept_block` sequentialis
             the peer's announced range contains it (first <= n < next) at the moment the wait ended, and (iii) it is
             removed from the queue in the same critical section in which it is handed out (one connection at a time),
             and the watchers are woken when the lowest requested block changes by the removal.
+ worker   - the per-request task of a connection (gossip/runner.rs, props/c19_runner.py) signals completion only after
+            queue_block accepted the received block carrying the requested number; every failure ends without a signal
+            (the dropped channel makes the requester retry).
 NOT decided (outside the claim, stated in DESIGN.md): lost-wake-up freedom and fairness under real interleavings of many
-requesters and per-peer workers (the queue content is re-havocked at every await instead), the per-peer worker in
-gossip/runner.rs (drop of the completion channel on failure, success signalled only after the block is queued), and the
-fetcher in gossip/mod.rs."""
+requesters and per-peer workers (the queue content is re-havocked at every await instead), the accept loop of the
+per-peer worker (reserve / accept / spawn), and the fetcher in gossip/mod.rs."""
 import time
 import z3
 from mirsym.core import (Exec, explore, solve, Num, Agg, Ref, Cell, Opaque, Panic, Unmodelled, BoundExceeded, num_cmp, to_z3_bool, UNIT)
@@ -387,4 +389,9 @@ def run(rep, db, tier, seed):
             rep.add(Obligation(name, 'inconclusive', f'{type(u).__name__}: {u}'[:700]))
     handle('Queue::request (insert, wait, retry on failure, cancel)', check_request)
     handle('Queue::accept_block (lowest announced request, removed in the critical section)', check_accept)
+    try:
+        from props import c19_runner
+        c19_runner.run(rep, db, tier)
+    except Exception as u:
+        rep.add(Obligation('per-request fetch task: success is signalled only after the block was queued', 'inconclusive', f'{type(u).__name__}: {u}'[:600]))
     rep.extra['explanation'] = 'sequential kernel of the fetch queue on the real MIR; interleaving freedom (lost wake-ups, double accept under real schedules) is NOT decided'
